@@ -10,6 +10,14 @@ CLAIMED = {
    technique="bounded exhaustive enumeration of closed UPLC terms, each executed on the real evaluator and on an independent reference CEK machine",
    text="Every closed term up to a size bound (full alphabet: size<=5 quick / <=6 thorough; small alphabet two sizes deeper) under each of the five semantics variants is evaluated by the real machine and by a reference CEK machine written from the specification; results (discharged value or failure) must coincide. Complete within the bound, silent beyond it.",
    note="trusted: the reference machine vcore::cek_ref (own term type, persistent environments, spec-style discharge) and the spec-transcribed builtin signature table; builtin denotations beyond the 8 in the alphabet are C04's job"),
+ "C05": dict(engine="h_uplc", design_ref="DESIGN.md §4 C05",
+   technique="bounded exhaustive enumeration of closed UPLC terms x slippages x budgets on the real machine; oracle: accounting identity from an independent reference machine's step/builtin-call counts, threshold law, golden budgets, size-bucket relations",
+   text="For every closed term up to the size bound that terminates (per the reference machine), under each semantics variant: the charged cost equals startup + sum over step kinds of count x step cost + the costs of the saturated builtin calls, with counts and call arguments taken from the independent reference machine; the cost is identical for 9 slippage values; for 7 budgets around the exact cost evaluation succeeds iff the budget covers the cost component-wise (OutOfExError otherwise, remaining budget never negative); the 655 V3 conformance budget goldens are reproduced exactly; and for every size-costed builtin, arguments of equal size measure cost the same and cost is monotone across bucket boundaries.",
+   note="trusted: cek_ref's step counting; BuiltinCosts::to_ex_budget is used for the per-call term of the identity and is itself pinned by the goldens and the size-bucket relations; V2 budget goldens excluded (no in-repo cost vector reproduces them, DESIGN §4 C05)"),
+ "C08": dict(engine="h_uplc", design_ref="DESIGN.md §4 C08",
+   technique="bounded exhaustive enumeration of programs over serialisation-boundary constants through the real flat/CBOR/hex encoders and decoders; oracle: round-trip identities plus an independent flat encoder and an independent blake2b-224",
+   text="Every closed program up to a size bound (all builtins and 42 serialisation-boundary constants at size<=3; a structural alphabet to size 6), in de Bruijn / named de Bruijn / named form and four version triples, is encoded by the real encoder and by an independent flat encoder (must agree bit for bit), decoded back (must be equal), re-encoded (bit-identical), passed through CBOR and hex, and its script hash for V1/V2/V3 is compared with an independent blake2b-224 of version byte || cbor; addresses must carry that hash. Non-canonical Data CBOR variants inside constants are decoded and re-encoded (bit-preservation; three known findings).",
+   note="uplc half: the blueprint JSON / CLI-composition half is checked with the h_proj engine (C18 invariants); trusted: vcore::flat_ref (written from the flat specification) and vcore::blake2b (RFC 7693, cross-checked against hashlib at self-test)"),
  "C10": dict(engine="h_uplc", design_ref="DESIGN.md §4 C10",
    technique="bounded exhaustive enumeration of open/ill-typed terms x budgets x variants and of every builtin x every tuple of value kinds on the real evaluator; oracle: terminates with value or error",
    text="All terms (free indices, index 0, ill-typed) up to a size bound x 4 budgets x 5 variants, and every builtin applied to the full cartesian product of 27 value kinds (integer boundaries, wrong types, non-constants) x 5 variants, run on the real machine under catch_unwind with overflow checks on; any panic is a violation; rendering the returned error is part of the case.",
